@@ -35,6 +35,8 @@ N_BASE = len(SETTINGS)
 # ... plus an infinite default and half-open ranges (only one bound to clip at)
 SETTINGS += [(lp, float("inf"), lr, 0.0, 1.0) for lp in (False, True) for lr in (False, True)]
 SETTINGS += [(True, d, True, lo, hi) for d in (NAN, 0.5, float("inf")) for lo, hi in ((0.0, float("inf")), (float("-inf"), 1.0))]
+# ... and a default of exactly 0.0 (a falsy number is still a default)
+SETTINGS += [(lp, 0.0, lr, 0.0, 1.0) for lp in (False, True) for lr in (False, True)]
 
 
 # exception classes a defuzzifier can fail with (arithmetic ones included: numpy raises them under np.errstate(all="raise"))
@@ -60,6 +62,12 @@ def shaped(shape: str, rows):
         return np.array(rows[0])
     if shape == "np":
         return np.float64(rows[0])
+    if shape == "column":  # a column of a row-major matrix: a non-contiguous view with a positive stride
+        m = np.zeros((len(rows), 2))
+        m[:, 0] = rows
+        return m[:, 0]
+    if shape == "reversed":  # a reversed view: negative stride (row order is the LOGICAL order, not the memory order)
+        return np.array(rows[::-1], dtype=float)[::-1]
     return np.array(rows, dtype=float)
 
 
@@ -78,6 +86,8 @@ def ops_a(max_len: int):
             ops.append(("disabled", "0d", rows))
         else:
             ops.append(("defuzz", "batch", rows))
+            if any(v != v for v in rows):
+                ops += [("defuzz", "column", rows), ("defuzz", "reversed", rows)]
     ops += [("fail", f) for f in FAILURES] + [("clear",), ("clear-disabled",), ("activate",)]
     ops.append(("disabled", "batch", [0.25, NAN]))
     return ops
@@ -470,7 +480,7 @@ def summarize(tier: str, seed: int, merged: dict) -> dict:
         "rule": (
             f"BFS to closure of the reachable states of OutputVariable under {len(SETTINGS)} settings (the 12 of the statement on [0,1], an infinite default, half-open ranges); operations: defuzzify with every "
             f"batch of 1..{max_len} values over {['nan', 0.25, 0.75, 2.0, -1.0, 'inf']} (result shapes: 0-d array, numpy scalar, "
-            f"1-element array, 1-D array), defuzzifier failure ({len(FAILURES)} exception classes), clear() (also while disabled), defuzzify while disabled, add "
+            f"1-element array, 1-D array, non-contiguous column view, reversed view), defuzzifier failure ({len(FAILURES)} exception classes), clear() (also while disabled), defuzzify while disabled, add "
             "an activation; driver B: Engine.process (float / array inputs) and restart (also while disabled / without rule blocks) on a WeightedAverage engine with two rule blocks. "
             "Because the search runs to closure, histories of every length are covered for batches up to the stated size. "
             "states = distinct (model, real) states; transitions = operations executed on a fresh real object after "
